@@ -638,8 +638,14 @@ def generate_c14(seed, tier):
         k = 9 if not (thorough and r.random() < 0.2) else 64
         classes = list(range(k))
     per = [r.randint(2, 7 if k <= 9 else 3) for _ in range(k)]
+    L = r.randint(1, 6)
+    # well-conditioned pooled covariance: within-class degrees of freedom comfortably above the trace length
+    ci = 0
+    while sum(p - 1 for p in per) < 2 * L + 2:
+        per[ci % k] += 1
+        ci += 1
     scn = {'prop': 'C14', 'engine': 'pipeline', 'seed': seed, 'kind': r.choice(['tstatic', 'tdpa']), 'style': style, 'classes': classes,
-           'auto': style == 'auto', 'L': r.randint(1, 6), 'precision': r.choice(['float32', 'float64']),
+           'auto': style == 'auto', 'L': L, 'precision': r.choice(['float32', 'float64']),
            'tdtype': r.choice(['float32', 'float64', 'int16'] if thorough else ['float32', 'float32', 'int16']), 'per_class': per,
            'nm': r.randint(1, 40), 'table_seed': rng.H(seed, 'table'),
            'build_rule': r.choice([1, 2, 3, 7, 50, 1000]), 'build_rule_2': r.choice([1, 5, 13, 1000]),
@@ -749,6 +755,10 @@ def execute_c14(scn):
         if violation is None:
             hyp = np.stack([kinds.leak(classes, ptm[:, 0], g) for g in range(k)], 1) if kind == 'tdpa' else None
             mus, S, sc = c14_model(Tb, vb, classes, Tm, hyp)
+            if np.linalg.cond(S) > 1e3:
+                # ill-conditioned pooled covariance: pinv is not comparable across roundings (precondition, DESIGN 4.3)
+                return {'violation': None, 'inconclusive': True, 'digest': rng.digest(storage.events), 'case': 'illcond', 'nontrivial': False,
+                        'faults': {}, 'probes': {'ill_conditioned_covariance': 1}, 'sim_time': storage.seq}
             if not compare.close(att.templates, mus, tol):
                 violation = viol('templates_differ_from_model', ['C14', 'templates_differ_from_model'] + sig_tail,
                                  'maxdiff=%s' % compare.maxdiff(att.templates, mus))
@@ -795,6 +805,7 @@ def execute_c14(scn):
 def precondition(scn):
     if scn['prop'] == 'C14':
         return len(scn['classes']) >= 2 and all(p >= 2 for p in scn['per_class']) and len(scn['per_class']) == len(scn['classes']) and scn['nm'] >= 1 \
+            and sum(p - 1 for p in scn['per_class']) >= 2 * scn['L'] + 2 \
             and 0 <= scn['key'] < len(scn['classes']) and (not scn['auto'] or scn['classes'] == list(range(len(scn['classes']))))
     if not scn['sets'] or any(n < 1 for n in scn['sets']):
         return False
